@@ -23,8 +23,9 @@ Lemma nth_mid {A} (a : list A) x r d : nth (length a) (a ++ x :: r) d = x.
 Proof. induction a; [reflexivity|assumption]. Qed.
 
 Section Phrase.
-  Variables (sgn : bool) (ls : list lang) (ext : Z -> list Z -> Z).
-  Hypothesis Hext : forall li L w, nth_error ls li = Some L -> ext (Z.of_nat li) (zs w) = enc (lang_search sgn L w).
+  Variables (sgn : bool) (ls : list lang) (ext : Z -> list Z -> Z) (OKW : bytes -> Prop).
+  (* the external search answers as the mirror search on the tokens of interest (OKW: e.g. NUL-free) *)
+  Hypothesis Hext : forall li L w, OKW w -> nth_error ls li = Some L -> ext (Z.of_nat li) (zs w) = enc (lang_search sgn L w).
   Hypothesis Hidx : forall L w j, In L ls -> lang_search sgn L w = Some (Some j) -> (j < 2048)%nat.
 
   (* ---- the inner loop: the searches of the remaining tokens in one language *)
@@ -35,6 +36,7 @@ Section Phrase.
        let value := ext (Z.of_nat li) (nth (Z.to_nat wi) (map zs ws) []) in
        if value <? 0 then Some (true, idx, 0, wi)
        else Some (false, CFuns.upd idx (Z.to_nat wi) (value mod 18446744073709551616), success, wi + 1)) ->
+    Forall OKW ws ->
     forall todo done idx f, ws = done ++ todo -> (length done + length todo = 16)%nat ->
     (length todo + 2 <= f)%nat -> length idx = 16%nat ->
     exists idx' wi', length idx' = 16%nat /\ CFuns.whileF f c b (false, idx, 1, Z.of_nat (length done)) =
@@ -43,7 +45,7 @@ Section Phrase.
       | _ => Some (true, idx', 0, wi')
       end.
   Proof.
-    intros HL Hc Hb. induction todo as [|w todo IH]; intros done idx f Ews Hlen Hf Hi.
+    intros HL Hc Hb HW. induction todo as [|w todo IH]; intros done idx f Ews Hlen Hf Hi.
     - cbn [decode_words map]. exists idx, 0. split; [exact Hi|]. destruct f as [|f]; [cbn in Hf; lia|]. rewrite whileF_stop.
       + cbn [length] in Hlen. rewrite app_nil_r, firstn_all2 by lia. replace (Z.of_nat (length done)) with 16 by lia. reflexivity.
       + rewrite Hc. cbn [length] in Hlen. replace (Z.of_nat (length done) <? 16) with false by (symmetry; apply Z.ltb_ge; lia). reflexivity.
@@ -52,7 +54,8 @@ Section Phrase.
       { rewrite Hc. cbn [negb andb]. apply Z.ltb_lt. lia. }
       assert (Ew : nth (Z.to_nat (Z.of_nat (length done))) (map zs ws) [] = zs w).
       { rewrite Nat2Z.id, Ews, map_app. cbn [map]. rewrite <- (map_length zs done). apply nth_mid. }
-      pose proof (Hb idx 1 (Z.of_nat (length done))) as Bs. cbv zeta in Bs. rewrite Ew, (Hext li L w HL) in Bs.
+      assert (Ow : OKW w) by (rewrite Ews in HW; apply Forall_app in HW; destruct HW as [_ HW]; apply (Forall_inv HW)).
+      pose proof (Hb idx 1 (Z.of_nat (length done))) as Bs. cbv zeta in Bs. rewrite Ew, (Hext li L w Ow HL) in Bs.
       cbn [decode_words].
       destruct (lang_search sgn L w) as [[j|]|] eqn:Es; cbn [enc] in Bs.
       + replace (Z.of_nat j <? 0) with false in Bs by (symmetry; apply Z.ltb_ge; lia).
@@ -94,7 +97,7 @@ Section Phrase.
   Qed.
 
   (* ---- polyseed_phrase_decode_explicit *)
-  Theorem tie_phrase_decode_explicit li L ws io0 fuel : nth_error ls li = Some L -> length ws = 16%nat ->
+  Theorem tie_phrase_decode_explicit li L ws io0 fuel : nth_error ls li = Some L -> Forall OKW ws -> length ws = 16%nat ->
     length io0 = 16%nat -> (18 <= fuel)%nat ->
     exists io, CFuns.polyseed_phrase_decode_explicit fuel ext (map zs ws) (Z.of_nat li) io0 =
       match decode_words sgn L ws with
@@ -102,7 +105,7 @@ Section Phrase.
       | _ => Some (io, 2)                                 (* POLYSEED_ERR_LANG *)
       end.
   Proof.
-    intros HL Hws Hio Hf. unfold CFuns.polyseed_phrase_decode_explicit.
+    intros HL HW Hws Hio Hf. unfold CFuns.polyseed_phrase_decode_explicit.
     match goal with |- context [CFuns.whileF fuel ?c ?b _] => set (C := c); set (B := b) end.
     assert (Lp : forall todo done io f, ws = done ++ todo -> (length done + length todo = 16)%nat ->
       (length todo + 2 <= f)%nat -> length io = 16%nat ->
@@ -123,7 +126,8 @@ Section Phrase.
         assert (Bs : B (false, false, 0, io, Z.of_nat (length done)) =
           if enc (lang_search sgn L w) <? 0 then Some (true, true, 2, io, Z.of_nat (length done))
           else Some (false, false, 0, CFuns.upd io (length done) (enc (lang_search sgn L w) mod 18446744073709551616), Z.of_nat (length done) + 1)).
-        { unfold B. cbv beta iota zeta. rewrite Ew, (Hext li L w HL), Nat2Z.id. reflexivity. }
+        { assert (Ow : OKW w) by (rewrite Ews in HW; apply Forall_app in HW; destruct HW as [_ HW]; apply (Forall_inv HW)).
+          unfold B. cbv beta iota zeta. rewrite Ew, (Hext li L w Ow HL), Nat2Z.id. reflexivity. }
         cbn [decode_words].
         destruct (lang_search sgn L w) as [[j|]|] eqn:Es; cbn [enc] in Bs.
         + replace (Z.of_nat j <? 0) with false in Bs by (symmetry; apply Z.ltb_ge; lia).
@@ -168,6 +172,7 @@ Section Phrase.
   Qed.
 
   Variables (ws : list bytes) (io0 : list Z) (lo lo0 : Z) (fuel : nat).
+  Hypothesis Hokw : Forall OKW ws.
   Hypothesis Hws : length ws = 16%nat.
   Hypothesis Hio : length io0 = 16%nat.
   Hypothesis Hfuel : (18 <= fuel)%nat.
@@ -229,7 +234,7 @@ Section Phrase.
           end).
         { unfold B. cbv beta iota zeta.
           match goal with |- context [CFuns.whileF fuel ?c ?b (false, idx, 1, 0)] =>
-            destruct (inner_loop (length dls) L c b ws HL (fun _ _ _ _ => eq_refl) (fun _ _ _ => eq_refl)
+            destruct (inner_loop (length dls) L c b ws HL (fun _ _ _ _ => eq_refl) (fun _ _ _ => eq_refl) Hokw
                         ws [] idx fuel eq_refl) as (idx'&wi'&Li'&W); [cbn [length]; lia | lia | exact Hi |] end.
           cbn [length] in W. change (Z.of_nat 0) with 0 in W. rewrite W.
           exists idx'. split; [exact Li'|].
@@ -287,25 +292,25 @@ Proof.
   - intros H. injection H as H. apply linear_find_sound in H. rewrite (words_len L HL) in H. lia.
 Qed.
 
-Theorem tie_phrase_decode_langs sgn ext ws io0 lo lo0 fuel :
-  (forall li L w, nth_error langs li = Some L -> ext (Z.of_nat li) (zs w) = enc (lang_search sgn L w)) ->
-  length ws = 16%nat -> length io0 = 16%nat -> (18 <= fuel)%nat ->
+Theorem tie_phrase_decode_langs sgn ext (OKW : bytes -> Prop) ws io0 lo lo0 fuel :
+  (forall li L w, OKW w -> nth_error langs li = Some L -> ext (Z.of_nat li) (zs w) = enc (lang_search sgn L w)) ->
+  Forall OKW ws -> length ws = 16%nat -> length io0 = 16%nat -> (18 <= fuel)%nat ->
   Res io0 lo lo0 (phrase_decode sgn langs ws) (CFuns.polyseed_phrase_decode fuel ext (map zs ws) io0 lo lo0).
 Proof.
-  intros Hext Hws Hio Hf.
-  apply (tie_phrase_decode sgn langs ext Hext (fun L w j HL => search_lt sgn L w j HL) ws io0 lo lo0 fuel Hws Hio Hf).
+  intros Hext HW Hws Hio Hf.
+  apply (tie_phrase_decode sgn langs ext OKW Hext (fun L w j HL => search_lt sgn L w j HL) ws io0 lo lo0 fuel HW Hws Hio Hf).
   reflexivity.
 Qed.
 
-Theorem tie_phrase_decode_explicit_langs sgn ext li L ws io0 fuel :
-  (forall li L w, nth_error langs li = Some L -> ext (Z.of_nat li) (zs w) = enc (lang_search sgn L w)) ->
-  nth_error langs li = Some L -> length ws = 16%nat -> length io0 = 16%nat -> (18 <= fuel)%nat ->
+Theorem tie_phrase_decode_explicit_langs sgn ext (OKW : bytes -> Prop) li L ws io0 fuel :
+  (forall li L w, OKW w -> nth_error langs li = Some L -> ext (Z.of_nat li) (zs w) = enc (lang_search sgn L w)) ->
+  nth_error langs li = Some L -> Forall OKW ws -> length ws = 16%nat -> length io0 = 16%nat -> (18 <= fuel)%nat ->
   exists io, CFuns.polyseed_phrase_decode_explicit fuel ext (map zs ws) (Z.of_nat li) io0 =
     match decode_words sgn L ws with
     | Some (Some js) => Some (map Z.of_N js, 0)
     | _ => Some (io, 2)
     end.
 Proof.
-  intros Hext HL Hws Hio Hf.
-  exact (tie_phrase_decode_explicit sgn langs ext Hext (fun L w j HL => search_lt sgn L w j HL) li L ws io0 fuel HL Hws Hio Hf).
+  intros Hext HL HW Hws Hio Hf.
+  exact (tie_phrase_decode_explicit sgn langs ext OKW Hext (fun L w j HL => search_lt sgn L w j HL) li L ws io0 fuel HL HW Hws Hio Hf).
 Qed.
